@@ -265,7 +265,7 @@ def make_asyncio_module(E):
     M.OBJ_ATTR_MODELS['Future'] = _future_attr
     M.OBJ_ATTR_MODELS['Task'] = _task_attr
     M.OBJ_ATTR_MODELS['Event'] = _event_attr
-    M.OBJ_ATTR_MODELS['Queue'] = _queue_attr
+    M.OBJ_ATTR_MODELS['Queue'] = lambda E_, o, n: _queue_attr(E_, o, n)
     M.OBJ_ATTR_MODELS['EventLoop'] = lambda E_, o, n: (
         Builtin('loop.create_future', lambda: new_future(E_)) if n == 'create_future' else
         Builtin('loop.time', lambda: mk_real(z3.ToReal(now(E_)) / 1000000)) if n == 'time' else
@@ -277,7 +277,7 @@ def make_asyncio_module(E):
     M.BASE_INIT_MODELS['Queue'] = _queue_init
     # subclasses of Queue defined in the repository (QueuePeekable) find Queue methods through the attr model
     for sub in ('QueuePeekable', 'QueuePeekableBackwardCompatible'):
-        M.OBJ_ATTR_MODELS[sub] = _queue_attr
+        M.OBJ_ATTR_MODELS[sub] = lambda E_, o, n: _queue_attr(E_, o, n)
 
     def create_task(coro, name=None):
         hook = getattr(E, 'create_task_hook', None)
@@ -429,3 +429,132 @@ def make_inspect_module(E):
     return M.ExternModule('inspect', dict(signature=Builtin('inspect.signature', signature),
                                           iscoroutinefunction=Builtin('iscoroutinefunction',
                                                                       lambda f: isinstance(f, ENG.PyFunc) and f.is_async)))
+
+
+# --------------------------------------------------------------------------- symbolic (unbounded) FIFO queue
+
+class ItemRegistry:
+    """Per-path registry giving every Python-level object put into a symbolic queue a distinct integer id."""
+
+    def __init__(self, E):
+        self.E = E
+        self.by_id = {}     # python int id -> object
+        self.next = 1
+
+    def id_of(self, obj):
+        if isinstance(obj, SOpaque) and '_id' in obj.attrs:
+            return obj.attrs['_id']
+        for k, v in self.by_id.items():
+            if v is obj:
+                return z3.IntVal(k)
+        k = self.next
+        self.next += 1
+        self.by_id[k] = obj
+        return z3.IntVal(k)
+
+    def obj_of(self, term, label):
+        """object for an id term: a registered object when the path decides the id, else an opaque item"""
+        t = z3.simplify(term)
+        if z3.is_int_value(t) and t.as_long() in self.by_id:
+            return self.by_id[t.as_long()]
+        for k, v in self.by_id.items():
+            if M.known(term == k) is True:
+                return v
+        hook = getattr(self.E, 'queue_item_hook', None)
+        if hook is not None:
+            return hook(self.E, term, label)
+        return SOpaque('qitem', label, attrs={'_id': term})
+
+
+def registry(E):
+    g = E.path.ghost
+    if 'items' not in g:
+        g['items'] = ItemRegistry(E)
+    return g['items']
+
+
+def new_symbolic_queue(E, cls, name, maxsize=0):
+    """Queue object holding an ARBITRARY finite content: ids arr[h..t-1] (pre-existing items have ids <= 0)."""
+    nm = E.path.fresh_name(name)
+    arr = z3.Array(nm + '.arr', z3.IntSort(), z3.IntSort())
+    h = z3.Int(nm + '.h')
+    t = z3.Int(nm + '.t')
+    E.path.add(z3.And(h >= 0, t >= h))
+    i = z3.Int('q.i')
+    # ids of pre-existing items are non-positive, so they never alias objects registered on this path
+    E.path.add(z3.ForAll([i], z3.Select(arr, i) <= 0))
+    q = SObj(cls, {'_sym': dict(arr=arr, h=h, t=t, name=nm, arr0=arr, h0=h, t0=t), 'maxsize': maxsize,
+                   '_getters': [], '_putters': [], '_unfinished_tasks': E.fresh_int(nm + '.unfinished', 0)})
+    return q
+
+
+class QueueView:
+    def __init__(self, q):
+        self.q = q
+
+
+def _sq_attr(E, q, name):
+    s = q.attrs['_sym']
+
+    def size():
+        return s['t'] - s['h']
+
+    def full():
+        ms = q.attrs['maxsize']
+        return mk_bool(z3.And(I(ms) > 0, size() >= I(ms)))
+
+    if name == 'put_nowait':
+        def put_nowait(x):
+            if E.decide(full(), 'queue-full'):
+                E.throw('QueueFull')
+            s['arr'] = z3.Store(s['arr'], s['t'], registry(E).id_of(x))
+            s['t'] = z3.simplify(s['t'] + 1)
+            q.attrs['_unfinished_tasks'] = M.binop(E, ast.Add(), q.attrs['_unfinished_tasks'], 1)
+        return Builtin('Queue.put_nowait', put_nowait)
+    if name == 'get_nowait':
+        def get_nowait():
+            if E.decide(mk_bool(s['h'] == s['t']), 'queue-empty'):
+                E.throw('QueueEmpty')
+            v = registry(E).obj_of(z3.Select(s['arr'], s['h']), '%s[%s]' % (s['name'], z3.simplify(s['h'])))
+            s['h'] = z3.simplify(s['h'] + 1)
+            return v
+        return Builtin('Queue.get_nowait', get_nowait)
+    if name == 'empty':
+        return Builtin('Queue.empty', lambda: mk_bool(s['h'] == s['t']))
+    if name == 'full':
+        return Builtin('Queue.full', full)
+    if name == 'qsize':
+        return Builtin('Queue.qsize', lambda: mk_int(size()))
+    if name == 'task_done':
+        def task_done():
+            q.attrs['_unfinished_tasks'] = M.binop(E, ast.Sub(), q.attrs['_unfinished_tasks'], 1)
+        return Builtin('Queue.task_done', task_done)
+    if name == '_wakeup_next':
+        return Builtin('Queue._wakeup_next', lambda waiters: None)
+    if name == '_get_loop':
+        return Builtin('Queue._get_loop', lambda: SObj(_cls('EventLoop')))
+    if name == '_queue':
+        return QueueView(q)
+    if name == 'get':
+        def get():
+            if E.decide(mk_bool(s['h'] == s['t']), 'queue-empty'):
+                return Awaitable('queue.get', q)
+            return Awaitable('ready', result=E.getattr(q, 'get_nowait').impl())
+        return Builtin('Queue.get', get)
+    return M.NOATTR
+
+
+def sq_peek(E, q):
+    s = q.attrs['_sym']
+    if E.decide(mk_bool(s['h'] == s['t']), 'queue-empty'):
+        E.throw('IndexError', 'deque index out of range')
+    return registry(E).obj_of(z3.Select(s['arr'], s['h']), '%s[%s]' % (s['name'], z3.simplify(s['h'])))
+
+
+_orig_queue_attr = _queue_attr
+
+
+def _queue_attr(E, q, name):        # noqa: F811
+    if '_sym' in q.attrs:
+        return _sq_attr(E, q, name)
+    return _orig_queue_attr(E, q, name)
